@@ -81,7 +81,18 @@ CFG = {
             "Pipeline.run; the outcome words must agree, and the oracle accepts only completed/rejected. Generators: hand-built adversarial documents "
             "(self-referential objects used as /Kids, /Contents, /Resources, /Pages, /Length, /Root, /Font, /Filter; /Kids, /Contents and reference-chain "
             "loops: self, cycle, lasso, long, dangling, cyclic containers at 18 reference positions; corpus/C01/long_reference_chain.case: an acyclic chain of 300 references below the catalog (dump_root depth label 302); 15 /DecodeParms shapes with extreme /Predictor /Columns "
-            "/Colors /BitsPerComponent singly and as parallel arrays; Flate, ASCIIHex, ASCII85 and chained filters; 15 extreme numbers substituted into "
+            "/Colors /BitsPerComponent singly and as parallel arrays; a /DecodeParms BOUNDARY SWEEP on every stream the pipeline itself decodes "
+            "(corpus/C01/decodeparms_boundary.case + about 930 documents in quick, 19 000 in thorough): the page's content stream, the first stream of a "
+            "/Contents array, the object stream holding catalog and page tree, or the cross-reference stream carries FlateDecode - alone, after "
+            "ASCIIHexDecode, after ASCII85Decode (which then gets a parameter dictionary too) - with /Predictor in {absent, 0, 1, 2, 3, 9, 10..15, 16, -1, "
+            "2^31, 2^32+1, 2^62, i64::MAX, i64::MIN, real, string, array, null, name} while the others are sane (spelled out and left to their defaults), "
+            "then under a TIFF and a PNG predictor (thorough: 2 and 10..15) each of /Colors /Columns /BitsPerComponent in {absent, 0, 1, 2, 7, 8, 16, 17, "
+            "-1, 2^31, 2^32+1, 2^62, i64::MAX, i64::MIN, non-integer objects}, then pairs of {0, -1, 17, i64::MAX} in two of the three entries and of a "
+            "bad /Predictor with one bad entry; the data is the host's own payload (content operators, object-stream text, cross-reference rows) padded "
+            "to whole rows and ENCODED by the spec-side predictor encoder for the nearest sane parameters (so the sane values complete with the text "
+            "extracted through a really reversed predictor on all four hosts), in five shapes: empty, one byte, one byte short of a row, whole rows, whole "
+            "rows plus one byte; every unusable value meets non-empty data on every host (hosts x chains fully crossed in thorough); "
+            "Flate, ASCIIHex, ASCII85 and chained filters; 15 extreme numbers substituted into "
             "/Length, /N, /First, /W, /Index, /Prev, startxref; classic-table, xref-stream (+Flate), object-stream, incrementally-updated and encrypted "
             "layouts (corpus/C01/encrypted_hybrid.case: the complete one-page document as a hybrid file whose trailer declares /Encrypt - the code refuses the /XRefStm stream and exits (the oracle accepts completed or rejected; the model correspondence pins which), "
             "the control without the declaration completes); /Prev self, cycle and out-of-range; nesting 10..10^5 (thorough 10^6) levels in an object, in a content stream and inside a "
